@@ -119,6 +119,8 @@ def pred(case):
     try:
         if it == 'alias':
             return pred_alias(case)
+        if it in ('tdotx', 'coords', 'signedm', 'pvr', 'fitplane'):
+            return pred_forms(case)
         if it == 'jsum':
             s, a, b = case['s'], case['alpha'], case['beta']
             x = np.asarray(case['x'], dtype=float)
@@ -397,6 +399,180 @@ def alias_cases(rng, count):
     return out
 
 
+
+# ------------------------------------------------------------------------------------------------
+# argument forms: dtypes of modes / weights / coordinates, signed m, consumers
+# ------------------------------------------------------------------------------------------------
+MODE_DTYPES = ['f64', 'f32', 'i64', 'bool', 'c128']
+WEIGHT_FORMS = ['f64', 'f32', 'i64', 'c128', 'list']
+COORD_FORMS = ['i64', 'i32', 'f32', '0d', '2d', '3d', 'f64-strided', 'pyfloat', 'npfloat']
+COORD_ROUTINES = ['jsum', 'qbfs', 'q2dalphas', 'q2d', 'zzqbfs', 'zzqcon']
+
+
+def coord_as(v, form):
+    v = np.asarray(v, dtype=float)
+    if form == 'i64':
+        return v.astype(np.int64)
+    if form == 'i32':
+        return v.astype(np.int32)
+    if form == 'f32':
+        return v.astype(np.float32)
+    if form == '0d':
+        return np.array(v.ravel()[0])
+    if form == '2d':
+        return np.stack([v, v[::-1]])
+    if form == '3d':
+        return np.stack([v, v[::-1]]).reshape(2, 1, v.size)
+    if form == 'f64-strided':
+        big = np.zeros(2 * v.size)
+        big[::2] = v
+        return big[::2]
+    if form == 'pyfloat':
+        return float(v.ravel()[0])
+    if form == 'npfloat':
+        return np.float64(v.ravel()[0])
+    raise C.ToolError(form)
+
+
+def coord_ref(v, form):
+    v = np.asarray(v, dtype=float)
+    if form in ('0d', 'pyfloat', 'npfloat'):
+        return np.array(v.ravel()[0])
+    if form == '2d':
+        return np.stack([v, v[::-1]])
+    if form == '3d':
+        return np.stack([v, v[::-1]]).reshape(2, 1, v.size)
+    return v.copy()
+
+
+def pred_forms(case):
+    P, qp, J = _impl()
+    it = case['item']
+    if it == 'tdotx':
+        k, md, wf, mism = case['k'], case['modes_dtype'], case['w_form'], case['mismatch']
+        base = (np.arange(k * 6).reshape(k, 2, 3) * 7 % 5 - 2)
+        if md == 'bool':
+            base = (base > 0)
+        mvals = base.astype(complex) * ((1 + 0.5j) if md == 'c128' else 1)
+        modes = mvals.real.astype({'f64': np.float64, 'f32': np.float32, 'i64': np.int64, 'bool': bool}[md]) if md != 'c128' else mvals
+        wv = [complex(a, b) for a, b in case['w']]
+        if wf != 'c128':
+            wv = [complex(v.real, 0) for v in wv]
+        if wf == 'i64':
+            wv = [complex(round(v.real * 4), 0) for v in wv]
+        w = {'f64': lambda: np.array([v.real for v in wv]), 'f32': lambda: np.array([v.real for v in wv], dtype=np.float32),
+             'i64': lambda: np.array([int(v.real) for v in wv]), 'c128': lambda: np.array(wv), 'list': lambda: [v.real for v in wv]}[wf]()
+        if mism:
+            w = w[:-1] if mism < 0 else (list(w) + [1.0] if isinstance(w, list) else np.concatenate([w, w[:1]]))
+            try:
+                got = P.sum_of_2d_modes(modes, w)
+            except Exception:
+                return True, ''          # a length mismatch must be refused, not silently truncated
+            return False, f'sum_of_2d_modes accepted {len(modes)} modes with {len(w)} weights and returned an array of shape {np.shape(got)}'
+        if wf == 'f32':
+            wv = [complex(float(np.float32(v.real)), 0) for v in wv]
+        exp = sum(wk * mk for wk, mk in zip(wv, mvals))
+        got = np.asarray(P.sum_of_2d_modes(modes, w))
+        tol = 1e-5 if 'f32' in (md, wf) else 1e-12
+        ok = got.shape == exp.shape and close(got.real, exp.real, tol) and close(np.imag(got), exp.imag, tol)
+        return ok, f'sum_of_2d_modes({md} modes, {wf} weights)={np.ravel(got)[:3]} explicit sum={np.ravel(exp)[:3]}'
+    if it == 'coords':
+        rt, form, cs, m = case['routine'], case['form'], case['cs'], case['m']
+        integral = form in ('i64', 'i32')
+        if rt == 'jsum':
+            v = np.array([-1, 0, 1] if integral else case['pts'], dtype=float)
+            fn = lambda x: J.jacobi_sum_clenshaw(cs, case['alpha'], case['beta'], x)                 # noqa: E731
+        else:
+            v = np.array([0, 1, 1] if integral else case['upts'], dtype=float)
+            tv = np.array(case['tpts'], dtype=float)
+            if rt == 'qbfs':
+                fn = lambda u: qp.clenshaw_qbfs(cs, u * u)                                            # noqa: E731
+            elif rt == 'q2dalphas':
+                fn = lambda u: qp.clenshaw_q2d(cs, m, u * u)                                          # noqa: E731
+            elif rt == 'zzqbfs':
+                fn = lambda u: qp.compute_z_zprime_Qbfs(cs, u, u * u)[0]                              # noqa: E731
+            elif rt == 'zzqcon':
+                fn = lambda u: qp.compute_z_zprime_Qcon(cs, u, u * u)[0]                              # noqa: E731
+            elif rt == 'q2d':
+                pad = [[] for _ in range(m - 1)]
+                tt = np.round(tv) if integral else tv
+                fn = lambda u: qp.compute_z_zprime_Q2d(None if case.get('cm0_none') else cs, pad + [case['cs2']], pad + [cs], u,   # noqa: E731
+                                                       coord_as(tt, form) if not hasattr(u, 'dtype') or u.dtype != np.float64 or form in ('2d', '3d', '0d', 'f64-strided') else coord_ref(tt, form))[0]
+            else:
+                raise C.ToolError(rt)
+        exp = np.array(fn(coord_ref(v, form)), dtype=float)
+        got = np.array(fn(coord_as(v, form)), dtype=float)
+        tol = 1e-4 if form == 'f32' else TOL
+        if got.shape != exp.shape:
+            return False, f'{rt} on {form} coordinates: shape {got.shape}, on the float64 array {exp.shape}'
+        return close(got, exp, tol), (f'{rt} on {form} coordinates: {np.ravel(got)[:4]}; on the float64 array with the same values: '
+                                      f'{np.ravel(exp)[:4]}')
+    if it == 'signedm':
+        cs, m = case['cs'], case['m']
+        u = np.array(case['u'], dtype=float)
+        exp = sum(c * qp.Q2d(n, m, u.copy(), np.zeros_like(u)) for n, c in enumerate(cs)) / u ** m
+        al = qp.clenshaw_q2d(cs, -m, u * u)
+        got = 0.5 * al[0] - (0.4 * al[3] if (m == 1 and len(cs) > 3) else 0.0)
+        return close(got, exp), f'clenshaw_q2d(m=-{m}) read-out {np.ravel(got)[:3]}; sum c_n Q_n^{m} (the radial part is the same for +-m) {np.ravel(exp)[:3]}'
+    if it == 'pvr':
+        from prysm.interferogram import Interferogram
+        n = case['n']
+        ifg = Interferogram(np.zeros((n, n)), 1.0, 0.6328)
+        r, t = ifg.r, ifg.t
+        rn = r / r[n - 1, n // 2]
+        nms = [P.fringe_to_nm(j) for j in case['terms']]
+        modes = P.zernike_nm_seq(nms, rn, t, norm=False)
+        data = P.sum_of_2d_modes(modes, np.array(case['c']))
+        ifg = Interferogram(data.copy(), 1.0, 0.6328)
+        inside = data[rn <= 1]
+        exp = float(inside.max() - inside.min())
+        got = float(ifg.pvr())
+        return abs(got - exp) <= 1e-8 * max(1.0, abs(exp)), f'Interferogram.pvr of a surface inside the span of the 36 fitted terms = {got}; its PV over the aperture = {exp}'
+    if it == 'fitplane':
+        from prysm.interferogram import fit_plane
+        from prysm.coordinates import make_xy_grid
+        x, y = make_xy_grid(tuple(case['shape']), diameter=2)
+        a, b = case['c']
+        z = a * x + b * y
+        z = np.array(z)
+        for i in case['drop']:
+            z.ravel()[i] = np.nan
+        got = fit_plane(x, y, relayout(z, case['layout']))
+        return close(got, a * x + b * y, 1e-9), f'fit_plane does not return the plane {a} x + {b} y'
+    raise C.ToolError(it)
+
+
+def form_cases(rng, count):
+    out = []
+    i = 0
+    while len(out) < count:
+        sel = i % 10
+        n = int(rng.integers(1, 7))
+        cs = [float(int(v)) / 2 for v in rng.integers(-6, 7, n)]
+        if not any(cs):
+            cs[-1] = 1.0
+        a, b = AB[i % len(AB)]
+        if sel < 3:
+            k = int(rng.integers(1, 5))
+            out.append({'item': 'tdotx', 'k': k, 'modes_dtype': MODE_DTYPES[(i // 10) % len(MODE_DTYPES)], 'w_form': WEIGHT_FORMS[(i // 50) % len(WEIGHT_FORMS)],
+                        'w': [[float(int(v) / 4), float(int(q) / 4)] for v, q in zip(rng.integers(-8, 9, k), rng.integers(-8, 9, k))],
+                        'mismatch': [0, 0, 0, -1, 1][(i // 3) % 5] if k > 1 else 0})
+        elif sel < 8:
+            rt = COORD_ROUTINES[(i // 10) % len(COORD_ROUTINES)]
+            out.append({'item': 'coords', 'routine': rt, 'form': COORD_FORMS[(i // 3) % len(COORD_FORMS)], 'cs': cs,
+                        'cs2': [float(int(v)) / 2 for v in rng.integers(-6, 7, int(rng.integers(1, 6)))], 'alpha': a, 'beta': b,
+                        'm': 1 + (i // 7) % 3, 'cm0_none': bool(i % 4 == 0), 'pts': [float(v) for v in rng.uniform(-0.9, 0.9, 3)],
+                        'upts': [float(v) for v in rng.uniform(0.05, 0.95, 3)], 'tpts': [float(v) for v in rng.uniform(0, 6, 3)]})
+        elif sel == 8:
+            out.append({'item': 'signedm', 'cs': cs, 'm': 1 + (i // 10) % 4, 'u': [float(v) for v in rng.uniform(0.1, 0.95, 2)]})
+        else:
+            nn = 6 * 7
+            out.append({'item': 'fitplane', 'shape': [6, 7], 'c': [float(int(v)) / 4 for v in rng.integers(-8, 9, 2)],
+                        'drop': sorted(int(v) for v in rng.choice(nn, size=5, replace=False)), 'layout': LAYOUTS[(i // 10) % len(LAYOUTS)]})
+        i += 1
+    return out
+
+
 def lstsq_build(case):
     """modes (k, m, n), data with NaNs, coefficients — deterministic from the case description"""
     P, qp, J = _impl()
@@ -438,6 +614,11 @@ def lstsq_build(case):
     # memory layout of the arrays handed to lstsq: the fit must depend on the logical (row, column) positions only
     data = relayout(data, case.get('data_layout', 'C'))
     modes = relayout(modes, case.get('modes_layout', 'C'))
+    if case.get('flat'):      # 1-D data and (k, npts) modes: the same fit, without the 2-D structure
+        data = np.array(data).ravel()
+        modes = np.array(modes).reshape(modes.shape[0], -1)
+        if case['flat'] == 'list':
+            modes = [row for row in modes]
     return modes, data, c
 
 
@@ -591,7 +772,9 @@ def correspondence(ctx):
     # ------------------------------------------------ jacobi_sum_clenshaw (exact, Fraction object arrays)
     # recurrence_abc is lru_cached and Fraction(4) hashes/compares equal to 4.0: clear the cache around the exact block
     # so that neither run sees coefficients computed in the other arithmetic
-    J.recurrence_abc.cache_clear()
+    _cc = getattr(getattr(J, 'recurrence_abc', None), 'cache_clear', None)
+    if _cc is not None:
+        _cc()
     for ci, (n, kind, pos) in enumerate(coef_cases(ctx, ctx.scale(8, 12))):
         s = [Fraction(int(round(v * 12)), 12) for v in coef_vector(rng, n, kind, pos)]
         if not any(s):
@@ -602,19 +785,26 @@ def correspondence(ctx):
         ctx.case('jsum-exact', case, nontrivial=True, tag=kind)
         try:
             got = J.jacobi_sum_clenshaw(s, a, b, np.array(xs, dtype=object))
+            if not all(isinstance(v, (Fraction, int)) for v in got):
+                raise TypeError('the result left exact arithmetic (a float dtype is forced somewhere on the path)')
             got = [Fraction(v) for v in got]
-        except Exception as ex:
-            got = f'raised {type(ex).__name__}: {ex}'
+        except Exception as ex:     # prysm does not (any longer) run on Fraction object arrays: the exact stream is not applicable
+            got = None
+            ctx.filtered_known['exact-stream-not-applicable'] += 1
+            if len(ctx.notes) < 5:
+                ctx.notes.append(f'jsum-exact not applicable: {type(ex).__name__}: {ex}')
         for k, xv in enumerate(xs):
             def chk(rep, case=case, got=got, k=k):
                 mv, me = (Fraction(v) for v in rep.split())
-                if isinstance(got, str) or got[k] != mv:
-                    ctx.disagree('jsum-exact', case, str(got if isinstance(got, str) else got[k]), str(mv))
+                if got is not None and got[k] != mv:
+                    ctx.disagree('jsum-exact', case, str(got[k]), str(mv))
                 if mv != me:
                     ctx.disagree('jsum-exact', case, 'model clenshaw', f'{mv} != explicit {me}', 'model self-check')
             add(f'q jsum {C.q2w(a)} {C.q2w(b)} {C.q2w(xv)} {wl(s, C.q2w)}', chk)
 
-    J.recurrence_abc.cache_clear()
+    _cc = getattr(getattr(J, 'recurrence_abc', None), 'cache_clear', None)
+    if _cc is not None:
+        _cc()
 
     # ------------------------------------------------ clenshaw_qbfs
     for rep_ in range(ctx.scale(5, 24)):
@@ -709,8 +899,8 @@ def correspondence(ctx):
         k = int(rng.integers(1, 9))
         nms = []
         for _ in range(k):
-            n = int(rng.integers(0, 6))
-            m = int(rng.integers(-4, 5))
+            n = int(rng.integers(0, 6)) if ci % 3 else int(rng.integers(0, 11))
+            m = int(rng.integers(-4, 5)) if ci % 3 else int(rng.integers(-8, 9))
             if kind == 'no-m0' and m == 0:
                 m = 1
             if kind == 'cos-only':
@@ -726,9 +916,12 @@ def correspondence(ctx):
             nms = []
         if kind == 'single':
             nms = nms[:1]
-        coefs = [float(int(rng.integers(1, 40))) / 8 for _ in nms]
+        coefs = [float(int(rng.integers(1, 40))) / 8 if rng.uniform() < 0.85 else 0.0 for _ in nms]     # explicit zeros too
+        if ci % 4 == 2:
+            nms = [list(p) for p in nms]                # rows given as lists instead of tuples
         u, t = float(rng.uniform(0.1, 0.9)), float(rng.uniform(0, 6))
         case = {'item': 'pack', 'nms': [list(p) for p in nms], 'coefs': coefs, 'u': [u], 't': [t]}
+        nms_t = [tuple(p) for p in nms]
         ctx.case('pack', case, nontrivial=bool(nms), tag=kind)
         ok, detail = pred(case)
         if not ok:
@@ -749,9 +942,26 @@ def correspondence(ctx):
             a = [lst(x) for x in parts[2].split(';')] if M else []
             b = [lst(x) for x in parts[3].split(';')] if M else []
             model = (cms, a, b)
-            if got != model:
+            if isinstance(got, str):
                 ctx.disagree('pack', case, got, model)
-        add('f pack ' + str(len(nms)) + ''.join(f' {n} {m} {C.f2w(c)}' for (n, m), c in zip(nms, coefs)), chk)
+                return
+
+            def strip(l):          # trailing zeros / an absent family given as zeros are equivalent for the consumer
+                l = list(l)
+                while l and l[-1] == 0:
+                    l.pop()
+                return l
+
+            def canon(t):
+                c0, aa, bb = t
+                aa, bb = [strip(v) for v in aa], [strip(v) for v in bb]
+                while aa and bb and not aa[-1] and not bb[-1]:
+                    aa.pop()
+                    bb.pop()
+                return strip(c0), aa, bb
+            if len(got[1]) != len(got[2]) or canon(got) != canon(model):
+                ctx.disagree('pack', case, got, model)
+        add('f pack ' + str(len(nms)) + ''.join(f' {n} {m} {C.f2w(c)}' for (n, m), c in zip(nms_t, coefs)), chk)
 
     # ------------------------------------------------ sum_of_2d_modes
     for ci in range(ctx.scale(300, 3000)):
@@ -790,6 +1000,21 @@ def correspondence(ctx):
         if not ok:
             ctx.pred_fail('alias', case, detail)
 
+    # ------------------------------------------------ dtypes of modes / weights / coordinates, signed m, consumers of lstsq
+    for case in form_cases(rng, ctx.scale(400, 4000)):
+        ctx.case(case['item'], case, nontrivial=True, tag='/'.join(str(case.get(k)) for k in ('routine', 'form', 'modes_dtype', 'w_form') if case.get(k)))
+        ok, detail = pred(case)
+        if not ok:
+            ctx.pred_fail(case['item'], case, detail)
+    for n_ in ((33, 48) if not ctx.thorough else (33, 48, 65, 96)):
+        for ti in range(ctx.scale(2, 5)):
+            terms = sorted(int(v) for v in rng.choice(np.arange(1, 37), size=6, replace=False))
+            case = {'item': 'pvr', 'n': n_, 'terms': terms, 'c': [float(int(v)) / 8 for v in rng.integers(-8, 9, 6)]}
+            ctx.case('pvr', case, nontrivial=True, tag=f'n{n_}')
+            ok, detail = pred(case)
+            if not ok:
+                ctx.pred_fail('pvr', case, detail)
+
     # ------------------------------------------------ lstsq
     for ci, case in enumerate(lstsq_cases(ctx)):
         try:
@@ -803,15 +1028,18 @@ def correspondence(ctx):
             got = np.asarray(P.lstsq(modes, data), dtype=float)
         except Exception as ex:
             got = f'raised {type(ex).__name__}: {ex}'
-        K_, size = modes.shape[0], data.size
+        K_, size = len(modes), data.size
         dd = np.where(keep, data.ravel(), 0.0)
-        mm = np.where(keep[None, :], modes.reshape(K_, -1), 0.0)
+        mm = np.where(keep[None, :], np.asarray(modes).reshape(K_, -1), 0.0)
 
         def chk(rep, case=case, got=got, c=c):
             if rep == 'rankdef':
                 ctx.filtered_known['lstsq-rank-deficient-case-skipped'] += 1   # generator produced a singular case: not in scope
                 return
-            mv = [rat_to_float(v) for v in rep.split()]
+            body, _, flag = rep.partition('|')
+            if flag.strip() != 'normal-equations-hold':
+                raise C.ToolError(f'the exact oracle returned a vector that does not satisfy the normal equations: {flag.strip()}')
+            mv = [rat_to_float(v) for v in body.split()]
             if isinstance(got, str) or not close(got, mv, 1e-7):
                 ctx.disagree('lstsq', case, got if isinstance(got, str) else got.tolist(), mv)
                 ctx.pred_fail('lstsq', case, f'lstsq returned {got if isinstance(got, str) else got[:4]}; exact least squares {mv[:4]}')
@@ -856,6 +1084,16 @@ def lstsq_cases(ctx):
                 out.append({'item': 'lstsq', 'basis': 'legendre', 'orders': [[0, 0], [1, 0], [0, 1], [1, 1], [2, 0]], 'mask': mask,
                             'shape': [6, 9], 'c': [float(int(v * 16)) / 16 for v in rng.uniform(-2, 2, 5)], 'drop': drop,
                             'poison': True, 'data_layout': dl, 'modes_layout': ml})
+    # 1-D data with (k, npts) modes (array and list of rows); degenerate one-row / one-column grids
+    for k, (flat, mask) in enumerate(itertools.product(['array', 'list'], ['none', 'dropout', 'inf'])):
+        out.append({'item': 'lstsq', 'basis': 'xy', 'orders': [[0, 0], [1, 0], [0, 1], [2, 0], [1, 1]], 'mask': mask, 'shape': [6, 7],
+                    'c': [float(int(v * 16)) / 16 for v in rng.uniform(-2, 2, 5)], 'poison': bool(k % 2), 'flat': flat,
+                    'drop': sorted(int(v) for v in rng.choice(42, size=8, replace=False))})
+    for shape, orders in (([1, 12], [[0, 0], [1, 0], [2, 0], [3, 0]]), ([13, 1], [[0, 0], [0, 1], [0, 2]])):
+        n = shape[0] * shape[1]
+        out.append({'item': 'lstsq', 'basis': 'legendre', 'orders': orders, 'mask': 'dropout', 'shape': shape,
+                    'c': [float(int(v * 16)) / 16 for v in rng.uniform(-2, 2, len(orders))], 'poison': True,
+                    'drop': sorted(int(v) for v in rng.choice(n, size=3, replace=False))})
     return out
 
 
@@ -969,22 +1207,42 @@ MANIFEST_ENTRY = {
     'text': ('PROVED for all inputs (Props/C10.lean, standard axioms): (1) clenshaw_sum - for every three-term family with arbitrary '
              'p_0 and arbitrary constants added to the recurrence, every point and every coefficient list of any length (0, 1, 2 '
              'included) the Clenshaw read-out alpha_0 p_0 + sum e_n alpha_{n+1} equals sum s_n p_n(x); instances: '
-             'jacobi_sum_clenshaw = sum s_n jacobi(n) with the value routine\'s explicit P_0, P_1 and both branches of recurrence_abc; '
-             'clenshaw_qbfs = u^2(1-u^2) sum c_n Q_n with 2(alpha_0+alpha_1) as read-out; the 2D-Q radial sum 0.5 alpha_0 - [m=1, N>2] '
-             '2/5 alpha_3 = sum c_n Q_n^m for every m >= 1 (q2d_aux_family proves that abc_q2d_clenshaw with the -2/5 constant '
-             'generates exactly the auxiliary polynomials P_0..P_3,... of the value routine Q2d). (2) change_of_basis_qbfs / _q2d for '
-             'every non-vanishing f and every g, h. (3) q2d_total - the per-m accumulation equals the explicit double sum for every '
-             'combination of present/absent/empty cosine and sine lists, unequal outer and radial lengths. (4) pack_roundtrip + '
-             'pack_shape for every sparse input incl. absent families. (5) tensordot_sum. (6) lstsq_recovers (unique minimiser of the '
-             'masked cost = synthesising coefficients when the modes are independent on the finite samples) and lstsq_ignores_invalid. '
+             'jacobi_sum_clenshaw = sum s_n jacobi(n) with the value routine\'s explicit P_0, P_1 and both branches of recurrence_abc '
+             '(no hypothesis on alpha, beta because x/0 = 0 in a field: where Python raises ZeroDivisionError the theorem says nothing '
+             'useful); clenshaw_qbfs = u^2(1-u^2) sum c_n Q_n with 2(alpha_0+alpha_1) as read-out; the 2D-Q radial sum 0.5 alpha_0 - '
+             '[m=1, N>2] 2/5 alpha_3 = sum c_n Q_n^m for every m >= 1 (q2d_aux_family proves that abc_q2d_clenshaw with the -2/5 constant '
+             'generates exactly the auxiliary polynomials P_0..P_3,... of the MODEL of the value routine Q2d; that model - qbfsQPair, '
+             'q2dPPair, jacobiPair - has no translator item here and is tied to Qbfs / Q2d / jacobi by execution only). (2) '
+             'change_of_basis_qbfs / _q2d for every non-vanishing f and every g, h (f, g, h are parameters: a wrong table consistent between '
+             'value routine and fast path is invisible here by design). (3) q2d_total - the per-m accumulation equals the explicit double '
+             'sum for every combination of present/absent/empty cosine and sine lists, unequal outer and radial lengths. (4) pack_roundtrip '
+             '+ pack_shape for every sparse input incl. absent families (about the model packer). (5) tensordot_sum (the index formula of '
+             'the contraction equals the weighted sum; np.tensordot itself is trusted). (6) lstsq: lstsq_recovers (unique minimiser of the '
+             'masked cost = synthesising coefficients when the modes are independent on the finite samples), lstsq_ignores_invalid, and '
+             'the bridge normal_equations_minimise (any vector satisfying the normal equations on the kept samples minimises the masked '
+             'cost); the executable oracle lstsqNormal is NOT proved to solve them - instead every reply of the driver is re-checked '
+             'exactly (rational arithmetic) against the normal equations at run time, and the harness refuses a reply without that flag. '
              'TRANSLATED from the current source each run and proved equal to the model (gen_* theorems): recurrence_abc (both branches '
              'and the branch test), the sweep step / which coefficient order feeds a,b vs c / read-write indices / loop bounds / seeds / '
              'one-term guards of jacobi_sum_clenshaw, change_basis_Qbfs_to_Pn, clenshaw_qbfs, change_of_basis_Q2d_to_Pnm, clenshaw_q2d; '
              'abc_q2d numerators and denominator; the abc_q2d_clenshaw patch table; the read-out, correction guard, per-side evaluation, '
-             'skip condition and zip_longest pairing of compute_z_zprime_Q2d; max(..., default=0) in Q2d_nm_c_to_a_b; tensordot axes; '
-             'the mask plumbing of lstsq. MODELLED AND COMPARED: the NumPy loops around those steps, compute_z_zprime_Q2d end to end, '
-             'Q2d_nm_c_to_a_b (exact structure), sum_of_2d_modes, lstsq against an exact rational normal-equation solve.'),
+             'skip condition and zip_longest pairing of compute_z_zprime_Q2d. STRUCTURAL FACTS (Booleans computed by the translator from '
+             'the syntax tree, opaque to Lean; three-valued - a recognised wrong shape is false and fails the proof, an unrecognised '
+             'spelling is reported as untranslatable / TIE-DEGRADED): max(..., default=0) in Q2d_nm_c_to_a_b, the tensordot axes (compared '
+             'as values), the mask plumbing of lstsq (equivalent reshape / mask spellings accepted). COMPARED ONLY: the NumPy loops around '
+             'the translated steps, the value routines Qbfs / Qcon / Q2d, compute_z_zprime_Q2d end to end, the body of Q2d_nm_c_to_a_b '
+             '(n <= 10, |m| <= 8, zero coefficients, list rows; compared up to trailing zeros / absent-vs-empty), sum_of_2d_modes, lstsq '
+             'against the exact rational solve, the consumers Interferogram.pvr (surface inside the span of the 36 fitted terms) and '
+             'fit_plane (modes as a list). Qcon sag and compute_z_zprime_Qbfs/_Qcon slopes are C09 (qcon_sag_is_sum, zzqcon items); here '
+             'they are called through the aliasing / coordinate-form items only. EXECUTED INPUT FORMS: list / tuple / ndarray (int64, '
+             'float32, float64) coefficients evaluated twice on the same objects; float64 / float32 / int / 0-d / 2-D / 3-D / strided '
+             'coordinates and Python / NumPy scalars; signed m; modes of dtype f64 / f32 / i64 / bool / c128 with weights f64 / f32 / i64 / '
+             'c128 / list, mismatched lengths must raise; lstsq with C / F / transposed / strided / reversed layouts of data and modes, 1-D '
+             'data, modes as list, one-row and one-column grids, +-inf and NaN masks, poisoned modes at masked samples.'),
     'note': ('partial in this sense: the link "Python loop with these bounds fills exactly these entries" is checked by execution, not '
-             'proved; np.linalg.lstsq is trusted to return the minimiser; f/g/h (square roots, factorials) are parameters of the theorems and '
-             'numbers taken from prysm in the runs; rounding error is not part of any theorem (comparisons at 1e-9 relative, lstsq 1e-7).'),
+             'proved; np.linalg.lstsq and np.tensordot are trusted; the exact oracle is validated per reply, not proved; the value '
+             'routines are compared, not translated; f/g/h (square roots, factorials) are parameters of the theorems and numbers taken '
+             'from prysm in the runs; rank-deficient lstsq draws are skipped and counted in filtered_known; exact Fraction streams are '
+             'skipped with a note when the implementation does not accept such objects; rounding error is not part of any theorem '
+             '(comparisons at 1e-9 relative, lstsq 1e-7, float32 inputs 1e-4).'),
 }
